@@ -12,7 +12,7 @@ STUBS = ["cdist sqeuclidean = sum_d (a_d-b_d)^2", "k_init with array init return
 ASSUMPTIONS = ["ties resolved as numpy.argmin does (first index); the claim only requires *a* nearest centroid", "every cluster non-empty for the variance/weight clauses",
                "real arithmetic: an algebraically equal |x|^2-2xm+|m|^2 rewrite is indistinguishable here (cancellation at large offsets is a float-only effect, outside the claim)"]
 EXHAUSTIVE = ["all argmin paths", "all row chunkings of the Dask input", "single sample and batch"]
-OUTSIDE = ["K,D,N beyond those listed", "rounding / cancellation"]
+OUTSIDE = ["K,D,N beyond those listed", "rounding / cancellation (probed concretely on the real code with offsets 1e3..1e8, as witness search only)"]
 SIZES = {"quick": [(2, 1, 3), (2, 2, 3)], "thorough": [(2, 1, 3), (2, 2, 3), (3, 1, 3), (2, 2, 4), (3, 2, 4)]}
 
 
@@ -29,10 +29,14 @@ def _labels(B, X, C0, K, D, N):
     return [int(np.argmin([float(sqd(X[i], C0[k], D)) for k in range(K)])) for i in range(N)]
 
 
-def sc_assign(B, K, D, N, chunks=None):
+def sc_assign(B, K, D, N, chunks=None, offset=0.0):
     km = B.mod("kmeans")
     X = B.arr("x", (N, D))
     C0 = B.arr("c", (K, D))
+    if offset:
+        # large common offset (float cancellation matters): only meaningful on the real backend
+        X = X + offset
+        C0 = C0 + offset
     m = km.KMeansMachine(K)
     m.centroids_ = B.copy(C0)
     data = B.copy(X) if chunks is None else B.darr(B.copy(X), (chunks, (D,)))
@@ -112,6 +116,16 @@ def job_assign(P, K, D, N):
     P.run("assign", sc_assign, dict(K=K, D=D, N=N), validate=2)
 
 
+def job_offsets(P):
+    """witness search outside the real-arithmetic claim: large common offsets on the real code
+    (float cancellation), NumPy and Dask input"""
+    plist = []
+    for off in (1e3, 1e6, 1e8):
+        for ch in (None, (2, 2), (1, 3)):
+            plist.append(dict(K=2, D=2, N=4, chunks=ch, offset=off))
+    P.probe_real("large-offsets", sc_assign, plist, tries=2)
+
+
 def job_assign_dask(P, K, D, N, chunks):
     P.run("assign-dask", sc_assign, dict(K=K, D=D, N=N, chunks=chunks), validate=1)
 
@@ -125,7 +139,7 @@ def job_gmm(P, K, D, N, chunks, floor):
 
 
 def jobs(tier):
-    out = []
+    out = [("offsets", "job_offsets", {})]
     for (K, D, N) in SIZES[tier]:
         out.append(("assign@K%dD%dN%d" % (K, D, N), "job_assign", dict(K=K, D=D, N=N)))
         out.append(("varw@K%dD%dN%d" % (K, D, N), "job_varw", dict(K=K, D=D, N=N, chunks=None)))
